@@ -17,6 +17,12 @@ from dv import hyp, libbuild as L, refcodec as R, strategies as S
 from dv.common import derive_seed, fp
 from dv.evidence import Recorder, finish
 
+import diameter.message            # noqa: E402,F401  (the codec's module state is recorded before its first use)
+import diameter.message.commands   # noqa: E402,F401
+from dv import codecthreads as CT
+
+PRISTINE = CT.ModuleState()
+
 PID = "C01"
 RULE = ("cases = (dictionary entry | run-time registered definition | unknown code) x "
         "(M,P) flag choice x type-directed value (boundary-biased) or well-formed wire AVP; "
@@ -443,6 +449,46 @@ def check_usage_history(D: S.Dict, rec: Recorder, seed: int, n: int):
 # --------------------------------------------------------------------------
 # shards
 # --------------------------------------------------------------------------
+def check_concurrent(D: S.Dict, t, rec: Recorder):
+    """Two or three threads build and encode grouped AVP trees, and decode them, at the same time: each gets the
+    bytes (the decoded tree) it gets when the calls run one after the other - which the sequential parts compare with
+    the reference codec."""
+    from diameter.message.avp import Avp
+    specs, seed, p = t
+    refs = []
+    for a in specs:
+        try:
+            refs.append(S.ref_encode(D, a))
+        except R.RefError:
+            rec.excluded["ref-unencodable"] += 1
+            return
+
+    def enc(a):
+        lib, _ = L.build_lib_avp(D, a)
+        return lib.as_bytes()
+
+    def dec(ref):
+        def flat(x):
+            v = x.value
+            return (x.code, x.vendor_id, x.flags if hasattr(x, "flags") else None,
+                    tuple(flat(k) for k in v) if isinstance(v, list) and v and hasattr(v[0], "code") else repr(v))
+        return flat(Avp.from_bytes(ref))
+    tasks = [lambda a=a: enc(a) for a in specs] + [lambda r=refs[0]: dec(r)]
+    conc, seq, taken, errs = CT.concurrent_vs_sequential(tasks, PRISTINE, seed, p, 6)
+    case = {"concurrent": specs, "seed": seed, "p": p}
+    for i, (c, s_) in enumerate(zip(conc, seq)):
+        if c != s_:
+            what = "encode" if i < len(specs) else "decode"
+            detail = f"thread {i} ({what}): {str(c)[:160]} but sequentially {str(s_)[:160]}"
+            rec.violation(f"C01/concurrent/{what}-differs", case, detail + f"; schedule {taken}")
+            break
+    for e in errs:
+        rec.violation("C01/concurrent/thread-error", case, e[:300])
+    rec.case(fp("conc", tuple(hash(r) for r in refs), tuple(sorted(taken.items()))) if taken else None,
+             ["origin:concurrent", f"concurrent:encoders:{len(specs)}", f"concurrent:switches:{min(len(taken), 6)}"],
+             sample=lambda: {"entries": [(a["code"], a["vendor"]) for a in specs], "schedule": {str(i): c for i, c in taken.items()}})
+
+
 def shard_main(shard, nshards, tier, scale):
     rec = Recorder(PID)
     D = S.Dict()
@@ -489,6 +535,16 @@ def shard_main(shard, nshards, tier, scale):
         check_registered(D, rec, 0, int((40 if thorough else 6) * scale) or 1)
     # last: these histories modify AVP objects in place, later checks in this process would inherit any damage
     check_usage_history(D, rec, shard, int((1500 if thorough else 120) * scale) or 10)
+    # concurrent use (the preemption points slow the codec down)
+    info = CT.install_points()
+    if shard == 0:
+        rec.extra["concurrent_preemption_functions"] = len(info)
+    tree = st.sampled_from(D.grouped).flatmap(lambda e: S.avp_spec(D, depth=0, max_depth=4, max_octets=32, entry=e))
+    cstrat = st.tuples(st.lists(tree, min_size=2, max_size=3), st.integers(0, 1 << 30), st.sampled_from([0.02, 0.08, 0.3]))
+    hyp.run_given(cstrat, lambda t: check_concurrent(D, t, rec), int((2500 if thorough else 150) * scale) or 5,
+                  derive_seed(PID, "concurrent", shard), rec=rec)
+    from dv import sched as _sched
+    _sched.clear()
     return rec.dump()
 
 
@@ -501,7 +557,7 @@ def run(tier, scale=1.0):
     total_entries = len(D.entries)
     rec.extra["dictionary_entries"] = total_entries
     required = {f"type:{t}": 1 for t in D.by_type} | {f"len%4:{i}": 1 for i in range(4)} | {
-        "origin:registered": 1, "origin:after-usage": 1, "usage:new-append": 1, "usage:reassign-header-fields": 1, "usage:decoded-empty-append": 1, "register:after-first-decode": 1, "register:overwrite": 1, "wire:unknown": 1, "wire:vendor-shadow": 1, "time:era1": 1, "time:era0": 1,
+        "origin:concurrent": 1, "concurrent:encoders:3": 1, "concurrent:switches:6": 1, "origin:registered": 1, "origin:after-usage": 1, "usage:new-append": 1, "usage:reassign-header-fields": 1, "usage:decoded-empty-append": 1, "register:after-first-decode": 1, "register:overwrite": 1, "wire:unknown": 1, "wire:vendor-shadow": 1, "time:era1": 1, "time:era0": 1,
         "time:era0-last-hour": 1, "depth:6": 1}
     return finish(rec, tier=tier, level="exploration", rule=RULE, assumptions=ASSUME, t0=t0,
                   exhaustive=False, required_classes=required,
@@ -513,7 +569,10 @@ def replay(doc):
     D = S.Dict()
     case = doc["case"]
     sig = doc["signature"]
-    if "ood" in case:
+    if "concurrent" in case:
+        CT.install_points()
+        check_concurrent(D, (case["concurrent"], case["seed"], case["p"]), rec)
+    elif "ood" in case:
         check_ood(D, rec, True)
     elif "payload" in case:
         check_wire(D, case, rec)
